@@ -280,6 +280,14 @@ func isErrorReturn(ret *ssa.Return) bool {
 // nothingToDoFastPath: every branch the step now depends on tests whether one of the step's own arguments (or its
 // receiver) is empty or nil — "if len(xs) == 0 { return }" in front of "process(xs)".
 func nothingToDoFastPath(fn *ssa.Function, members []ssa.Instruction) bool {
+	return fastPath(fn, members, false, nil)
+}
+
+// fastPath: as above; for a step that writes, sends and starts nothing (pureStep) every branch it now depends on
+// only has to be an emptiness / nil test of something — "if len(value) == 0 { return nil }" in front of a pure
+// lookup whose result only the skipped loop would have used. Tests the step depended on on the reviewed tree
+// (recorded by the guard ratchet: the checks in front of error returns) are not new and are left out.
+func fastPath(fn *ssa.Function, members []ssa.Instruction, pureStep bool, recorded map[string]bool) bool {
 	if len(members) != 1 {
 		return false
 	}
@@ -299,11 +307,15 @@ func nothingToDoFastPath(fn *ssa.Function, members []ssa.Instruction) bool {
 		args = append(args, describeVal(ci.Common().Value, 0))
 	}
 	for a := range atoms {
-		okAtom := false
+		okAtom := recorded[a] // a test the step already depended on (the guard in front of an error return)
 		for _, d := range args {
 			if a == "0 =?= len("+d+")" || a == d+" =?= nil" || a == "nil =?= "+d || a == "0 <? len("+d+")" {
 				okAtom = true
 			}
+		}
+		if !okAtom && pureStep {
+			okAtom = (strings.HasPrefix(a, "0 =?= len(") || strings.HasPrefix(a, "0 <? len(")) && strings.HasSuffix(a, ")") ||
+				strings.HasSuffix(a, " =?= nil") || strings.HasPrefix(a, "nil =?= ")
 		}
 		if !okAtom {
 			return false
@@ -315,12 +327,29 @@ func nothingToDoFastPath(fn *ssa.Function, members []ssa.Instruction) bool {
 // ruleAlwaysRatchet: a step that ran on every path still does.
 func (c *Ctx) ruleAlwaysRatchet(rule string, pkgs []string, fileFilter func(file string) bool, baselineFile string, min int) {
 	r := c.R
-	r.Rule(rule, "bypass ratchet: the committed baseline records, per function, the calls and field stores (classes as in the order ratchet) that run on every path from the entry to a return that does not hand back a freshly made error. If each of those steps is still in the function and one of them can now be bypassed (other than by a fast path that only tests whether the step's own argument is empty) — a new early return or branch around a cancel, a wait, a drain, a reset — the reviewed behaviour 'this always happens' is gone", min)
+	r.Rule(rule, "bypass ratchet: the committed baseline records, per function, the calls and field stores (classes as in the order ratchet) that run on every path from the entry to a return that does not hand back a freshly made error. If each of those steps is still in the function and one of them can now be bypassed (other than by a fast path that only tests whether the step's own argument is empty, or — for a step that writes, sends and starts nothing — whether anything is empty or nil) — a new early return or branch around a cancel, a wait, a drain, a reset — the reviewed behaviour 'this always happens' is gone", min)
 	var base []callSig
 	b, err := os.ReadFile(filepath.Join(homeDir(), baselineFile))
 	if err != nil || json.Unmarshal(b, &base) != nil {
 		r.Undec(rule, "-", "baseline:"+baselineFile, "-", "baseline file missing or unreadable")
 		return
+	}
+	// the tests each step depended on on the reviewed tree (guard ratchet's baseline)
+	recordedGuards := map[string]map[string]map[string]bool{}
+	if rg, ok := loadRG("baselines/readguard.json"); ok {
+		for _, x := range rg {
+			m := map[string]map[string]bool{}
+			for k, rec := range x.Guards {
+				set := map[string]bool{}
+				for _, a := range rec {
+					if !strings.HasPrefix(a, "=") {
+						set[a] = true
+					}
+				}
+				m[k] = set
+			}
+			recordedGuards[x.Func] = m
+		}
 	}
 	for _, bs := range base {
 		inPkgs := false
@@ -332,7 +361,7 @@ func (c *Ctx) ruleAlwaysRatchet(rule string, pkgs []string, fileFilter func(file
 		if !inPkgs || len(bs.Always) < 1 || (fileFilter != nil && !fileFilter(bs.File)) {
 			continue
 		}
-		fn := c.P.Func(bs.Func)
+		fn := c.unitFunc(bs.Func)
 		cons := fmt.Sprintf("%d unconditional steps", len(bs.Always))
 		if fn == nil || fn.Blocks == nil {
 			r.Add(oblT(rule, bs.Func, cons, bs.File, "ok", "the function no longer exists: not decided", nil, true))
@@ -354,7 +383,7 @@ func (c *Ctx) ruleAlwaysRatchet(rule string, pkgs []string, fileFilter func(file
 		lost := ""
 		for _, k := range bs.Always {
 			if !runsOnEveryPath(fn, uc[k]) {
-				if nothingToDoFastPath(fn, uc[k]) {
+				if fastPath(fn, uc[k], len(uc[k]) == 1 && c.effectFreeEvent(uc[k][0]), recordedGuards[bs.Func][k]) {
 					continue // skipped only when what it works on is empty: a fast path, not a bypass
 				}
 				name := k
@@ -849,6 +878,16 @@ func (c *Ctx) callSigs(pkgs []string) []callSig {
 			}
 			order := orderEdges(c, fn)
 			out = append(out, callSig{Func: ir.FuncKey(fn), File: file, Callees: sortedKeys(set), Counts: counts, Order: order, Always: alwaysEvents(events(c, fn), fn), NEvents: countEvents(events(c, fn)), Returns: countReturns(fn)})
+			// function literals: units of the order and bypass ratchets under a role key (units.go); their callees are
+			// already part of the enclosing function's set
+			for _, u := range c.closureUnits(ir.FuncKey(fn), fn) {
+				uo := orderEdges(c, u.Fn)
+				ua := alwaysEvents(events(c, u.Fn), u.Fn)
+				if len(uo) == 0 && len(ua) == 0 {
+					continue
+				}
+				out = append(out, callSig{Func: u.Key, File: file, Order: uo, Always: ua, NEvents: countEvents(events(c, u.Fn)), Returns: countReturns(u.Fn)})
+			}
 		}
 	}
 	sort.Slice(out, func(i, j int) bool { return out[i].Func < out[j].Func })
@@ -883,7 +922,7 @@ func (c *Ctx) ruleCallRatchet(rule string, pkgs []string, fileFilter func(file s
 				inPkgs = true
 			}
 		}
-		if !inPkgs || (fileFilter != nil && !fileFilter(bs.File)) {
+		if !inPkgs || (fileFilter != nil && !fileFilter(bs.File)) || isClosureUnit(bs.Func) {
 			continue
 		}
 		fn := c.P.Func(bs.Func)
@@ -983,7 +1022,7 @@ func (c *Ctx) ruleOrderRatchet(rule string, pkgs []string, fileFilter func(file 
 		if !inPkgs || len(bs.Order) < 1 || (fileFilter != nil && !fileFilter(bs.File)) {
 			continue
 		}
-		fn := c.P.Func(bs.Func)
+		fn := c.unitFunc(bs.Func)
 		cons := fmt.Sprintf("%d order edges", len(bs.Order))
 		if fn == nil || fn.Blocks == nil {
 			r.Add(oblT(rule, bs.Func, cons, bs.File, "ok", "the function no longer exists: not decided", nil, true))
